@@ -68,6 +68,10 @@ const OPS: &[(&str, u8)] = &[
     ("[x, ..y] = [K, K]", 0),
     ("hs += [fn () {\nreturn x + 0\n}]", 0),
     ("print(hs[0]())", 0),
+    ("[x, y] := [K, x + 0]", 0),
+    ("{_, _, ..y} := {\"z\": K}", 0),
+    ("fn x() {\nx := K\nprint(x + 0)\n}\nx()", 0),
+    ("fn x(x) {\nprint(x + 0)\n}\nx(K)", 0),
 ];
 const CLOSE: u16 = 11;
 
